@@ -284,6 +284,13 @@ fn model_batch(ctx: &mut Ctx, runs: &[(Vec<u8>, usize, Vec<Op>, Config, bool)], 
             continue;
         }
         if !rops::agree(&answers[i], &traces[i]) {
+            // With a growing input the moment at which a call runs out of data depends on how eagerly the inflater
+            // hands out bytes (the driver's inflater is maximally eager, fdeflate may hold a few back): only the
+            // sequence of results other than end-of-input is compared then.
+            if ops.iter().any(|o| matches!(o, Op::Grow(_))) && rops::agree_modulo_eof(&answers[i], &traces[i], ops) {
+                ctx.rep.count("model comparison", "equal up to the placement of end-of-input");
+                continue;
+            }
             if *dom {
                 ctx.rep.violation("model", &format!("reader-model/{}", class), &format!("Reader model `{}` vs implementation `{}`", cut(&answers[i]), cut(&traces[i].text())), case(f, *v, ops, cfg));
             } else {
